@@ -58,3 +58,36 @@ def cxx_stage(ctx, flavour="ndebug", targets=("psyh",)):
         ctx.notes["cxx_build_log_tail"] = log[-3000:]
         raise RuntimeError("building /repo + harness (%s) failed: %s" % (flavour, _first_error(log)))
     return d
+
+
+def run_both(ctx, component, lines, flavour="ndebug", args=(), model_component=None, timeout=3000):
+    """Run the same case lines through psyh (real code) and psymodel (Lean model). Returns (impl, model) line lists."""
+    from .common import sh
+    text = "\n".join(lines) + "\n"
+    rc, out, err = sh([build.psyh(flavour), component] + list(args), input=text, timeout=timeout,
+                      env={"ASAN_OPTIONS": "detect_leaks=0:new_delete_type_mismatch=0", "UBSAN_OPTIONS": "print_stacktrace=1"})
+    impl = out.split("\n")
+    if impl and impl[-1] == "":
+        impl.pop()
+    if rc != 0:
+        # a crash / sanitizer report while running a case is a result: identify the case
+        k = len(impl)
+        culprit = lines[k] if k < len(lines) else (lines[-1] if lines else "")
+        raise HarnessCrash(component, flavour, rc, culprit, err[-3000:])
+    model = leanb.model(model_component or component, text, timeout=timeout)
+    if len(impl) != len(lines) or len(model) != len(lines):
+        raise RuntimeError("%s: line count mismatch impl=%d model=%d cases=%d" % (component, len(impl), len(model), len(lines)))
+    return impl, model
+
+
+class HarnessCrash(Exception):
+    def __init__(self, component, flavour, rc, case, stderr):
+        super().__init__("psyh %s (%s) died with status %s on case %r: %s" % (component, flavour, rc, case[:200], stderr[-400:]))
+        self.component, self.flavour, self.rc, self.case, self.stderr = component, flavour, rc, case, stderr
+
+
+def lean_unproved(ctx, pid, prop_mod):
+    """Called at the end when the Lean stage failed and no failing input was found by the search."""
+    if not ctx.violations:
+        ctx.report("lean:" + pid, getattr(ctx, "lean_failure", "Lean obligations not discharged"),
+                   {"theorem_or_module": prop_mod, "detail": getattr(ctx, "lean_failure", "")}, no_input=True)
